@@ -11,8 +11,19 @@ NOT_COVERED = []
 ASSUMPTIONS = ['len argument equals the length of the supplied buffer (the harness uses exact-size heap blocks under ASan)']
 
 
+def _wait_driver(secs=120):
+    """The shared driver binary disappears for a moment while another owner's run relinks it; wait for it."""
+    import os, time
+    t0 = time.time()
+    while not os.path.exists(common.driver_path()) and time.time() - t0 < secs:
+        time.sleep(2)
+    if not os.path.exists(common.driver_path()):
+        common.lake_build(['opusmodel'])
+
+
 def ties(ctx):
     h = ctx.harness('c06_framing', ['c06_framing.c'], variant='san')
+    _wait_driver()
     if ctx.quick:
         return [common.run_tie('framing-enum', [h, 'enum', '0']),
                 common.run_tie('framing-rand', [h, 'rand', str(ctx.seed), '60000']),
